@@ -16,7 +16,7 @@
 EXTENDS ModulesDefs, TLC, Json
 
 Log == ndJsonDeserialize("trace.ndjson")
-Headers == {j \in 1..Len(Log) : Log[j].k = "hdr"}
+Headers == {j \in 1..Len(Log) : Log[j].k = "h"}
 
 StateName == <<"New", "Starting", "Running", "Stopping", "Terminated", "Failed">>
 
@@ -41,7 +41,7 @@ Init == /\ h \in Headers /\ i = h
         /\ sRan = False(Log[h].n) /\ wStarted = False(Log[h].n)
         /\ wst = [m \in 1..Log[h].n |-> "New"] /\ sst = [m \in 1..Log[h].n |-> "New"]
 
-IsEvent(j) == j <= Len(Log) /\ Log[j].k = "ev"
+IsEvent(j) == j <= Len(Log) /\ Log[j].k = "e"
 
 (* The clauses an event can break, by name.  e = the event, w / s its snapshot. *)
 Bad(e, w, s) ==
@@ -72,7 +72,8 @@ Step ==
            s == Snap(e.s)
            bad == Bad(e, w, s)
        IN  /\ IF bad = {} THEN TRUE
-              ELSE PrintT(ToJson([run |-> Log[h].id, line |-> i + 1, ev |-> e.ev, m |-> e.m, bad |-> bad, w |-> e.w, s |-> e.s]))
+              ELSE PrintT(ToJson([run |-> Log[h].id, line |-> i + 1, ev |-> e.ev, m |-> e.m, bad |-> bad, w |-> e.w, s |-> e.s,
+                                   active_dependants |-> IF e.ev = "istop" THEN {x \in DependantsSvc(tr, HSvc, e.m) : s[x] \in Active} ELSE {}]))
            /\ wst' = w /\ sst' = s
            /\ startAsked' = IF e.ev = "istart" THEN [startAsked EXCEPT ![e.m] = TRUE] ELSE startAsked
            /\ stopAsked'  = IF e.ev = "istop" THEN [stopAsked EXCEPT ![e.m] = TRUE] ELSE stopAsked
